@@ -190,9 +190,20 @@ fn serde_case_on<H: HistT>(h0: H, edges: Vec<f64>, label: &str, rng: &mut Xoshir
     for _ in 0..n1 {
         let _ = a.add(sample(rng));
     }
+    // counts beyond 2^53 (not representable as f64), reached by adds and merges only: the
+    // histogram merged with a clone of itself 55 times, then one more sample
+    let doubled = n1 > 0 && rng.random_range(0..3) == 0;
+    if doubled {
+        for _ in 0..55 {
+            let c = a.clone();
+            a.merge(&c);
+        }
+        let _ = a.add(sample(rng));
+        let _ = a.add(lo);
+    }
     let fail = |rep: &mut Report, what: String| {
         rep.violation(json!({"property": "C18", "family": "histogram", "type": H::NAME, "embedding": label,
-            "history": {"edges": edges, "adds_before_checkpoint": n1}, "accessor": "roundtrip", "what": what,
+            "history": {"edges": edges, "adds_before_checkpoint": n1, "then_merged_with_its_clone_55_times_and_two_more_adds": doubled}, "accessor": "roundtrip", "what": what,
             "signature": format!("C18|{}|roundtrip-{}", H::NAME, label)}));
     };
     let j = match a.to_json() {
